@@ -227,4 +227,116 @@ theorem reach_valid_eq (s : Sig) (body : PDict → Res Val) :
         rw [ihl, hll]; simp
       · rw [key _ (by decide)]; simpa [reach, h.pd2np_eq] using ih
 
+/-! ### the first call of a history is `evalChain` -/
+
+theorem attempts_fresh (run : HSt → HSt × Res Val) (r0 : Res Val)
+    (hrun : ∀ st, st.cache = [] → (run st).2 = r0 ∧ (∀ e, (run st).2 = .error e → (run st).1.cache = [])) :
+    ∀ (n : Nat) (st : HSt), st.cache = [] →
+      (attempts run n st).2 = r0 ∧ (∀ e, (attempts run n st).2 = .error e → (attempts run n st).1.cache = [])
+  | 0, st, h => hrun st h
+  | n + 1, st, h => by
+      obtain ⟨h1, h2⟩ := hrun st h
+      simp only [attempts]
+      cases hr : run st with
+      | mk st1 r =>
+        rw [hr] at h1 h2
+        cases r with
+        | ok v => exact ⟨h1, fun e he => by cases he⟩
+        | error e =>
+          simp only
+          exact attempts_fresh run r0 hrun n st1 (h2 e rfl)
+
+/-- on an empty cache one call of the history model returns what `evalChain` returns (for EVERY call, valid or not,
+raising or not), and a raising call leaves the cache empty -/
+theorem evalH_fresh (s : Sig) (body : PDict → Res Val) (unh : Call → Bool) :
+    ∀ (ch : List (Cls × PDict)) (st : HSt) (c : Call), st.cache = [] →
+      (evalH s body unh ch st c).2 = evalChain s body ch c ∧
+      (∀ e, (evalH s body unh ch st c).2 = .error e → (evalH s body unh ch st c).1.cache = [])
+  | [], st, c, h => by
+      simp only [evalH, evalChain, applyFn]
+      cases bindRef s c with
+      | error e => exact ⟨rfl, fun _ _ => h⟩
+      | ok b => exact ⟨rfl, fun _ _ => h⟩
+  | (cls, p) :: rest, st, c, h => by
+      cases cls
+      · have ha := attempts_fresh (fun st => evalH s body unh rest st c) (evalChain s body rest c)
+          (fun st' h' => evalH_fresh s body unh rest st' c h') (repeatOf p) st h
+        simp only [evalH, evalChain]
+        cases hr : attempts (fun st => evalH s body unh rest st c) (repeatOf p) st with
+        | mk st1 r =>
+          rw [hr] at ha
+          obtain ⟨h1, h2⟩ := ha
+          simp only at h1 h2
+          rw [← h1]
+          cases r with
+          | ok v => exact ⟨rfl, fun e he => by cases he⟩
+          | error e =>
+            simp only
+            by_cases hp : p.lookup "return_value" = some (.cell (.bool false))
+            · simp only [hp, if_true]; exact ⟨trivial, fun _ _ => h2 e rfl⟩
+            · simp only [hp, if_false]; exact ⟨trivial, fun e he => by cases he⟩
+      · have ih := evalH_fresh s body unh rest st c h
+        simp only [evalH, evalChain]
+        cases hr : evalH s body unh rest st c with
+        | mk st1 r =>
+          rw [hr] at ih
+          obtain ⟨h1, h2⟩ := ih
+          simp only at h1 h2
+          rw [← h1]
+          cases r with
+          | ok v => exact ⟨rfl, fun e he => by cases he⟩
+          | error e => exact ⟨rfl, fun e he => by cases he⟩
+      · simp only [evalH, evalChain]; exact evalH_fresh s body unh rest st _ h
+      · have ih := evalH_fresh s body unh rest st c h
+        simp only [evalH, evalChain]
+        by_cases hu : unh c = true
+        · simp only [hu, if_true]; exact ih
+        · simp only [hu, Bool.false_eq_true, if_false, h, List.lookup_nil]
+          cases hr : evalH s body unh rest st c with
+          | mk st1 r =>
+            rw [hr] at ih
+            obtain ⟨h1, h2⟩ := ih
+            simp only at h1 h2
+            cases r with
+            | ok v => simp only; exact ⟨h1, fun e he => by cases he⟩
+            | error e => simp only; exact evalH_fresh s body unh rest st1 c (h2 e rfl)
+      · simp only [evalH, evalChain]; exact evalH_fresh s body unh rest st _ h
+      · simp only [evalH, evalChain]; exact evalH_fresh s body unh rest st _ h
+
+/-- a stack whose wrapper classes are pairwise distinct has no cache layer or exactly one -/
+theorem split_at_cache : ∀ (ch : List (Cls × PDict)), (classes ch).Nodup →
+    noCache ch ∨ ∃ above p below, ch = above ++ (Cls.cache, p) :: below ∧ noCache above ∧ noCache below
+  | [], _ => Or.inl (by intro w hw; simp at hw)
+  | (cls, p) :: rest, h => by
+      simp only [classes, List.map_cons, List.nodup_cons] at h
+      by_cases hc : cls = Cls.cache
+      · subst hc
+        refine Or.inr ⟨[], p, rest, rfl, by intro w hw; simp at hw, fun w hw e => h.1 ?_⟩
+        exact List.mem_map.2 ⟨w, hw, e⟩
+      · rcases split_at_cache rest h.2 with hn | ⟨above, q, below, he, ha, hb⟩
+        · left
+          intro w hw
+          rcases List.mem_cons.1 hw with rfl | hw
+          · exact hc
+          · exact hn w hw
+        · right
+          refine ⟨(cls, p) :: above, q, below, by rw [he]; rfl, ?_, hb⟩
+          intro w hw
+          rcases List.mem_cons.1 hw with rfl | hw
+          · exact hc
+          · exact ha w hw
+
+/-- a history on a stack without a cache layer: every valid call executes the plain function once -/
+theorem runH_noCache (s : Sig) (body : PDict → Res Val) (unh : Call → Bool) (ch : List (Cls × PDict))
+    (hn : noCache ch) : ∀ (calls : List Call) (st : HSt), (∀ c ∈ calls, ∃ v, ValidCall s body c v) →
+      (runH s body unh ch st calls).2 = calls.map (applyFn s body) ∧
+      (runH s body unh ch st calls).1.evals = st.evals ++ calls.map (reach s ch)
+  | [], st, _ => by simp [runH]
+  | c :: cs, st, hv => by
+      obtain ⟨v, hval⟩ := hv c (by simp)
+      have ih := runH_noCache s body unh ch hn cs
+        { st with evals := st.evals ++ [reach s ch c] } (fun x hx => hv x (by simp [hx]))
+      simp only [runH, evalH_below s body unh ch st c v hn hval, List.map_cons]
+      exact ⟨by rw [ih.1, hval.ok], by rw [ih.2]; simp⟩
+
 end Pyg
